@@ -604,6 +604,8 @@ def worker(job, r):
     sess = net.Session(exe, env, work, None)
     sess.cmd('ctx 0')
     if mode == 'conf':
+        for i in range(12):
+            extender_status_isolation(sess, rng, r, 'x%d-%d' % (seed, i))
         for nconf in (1, 2, 3, 5):
             for split in (False, True):
                 for order in (0, 1, 2):
@@ -665,7 +667,7 @@ def run(ctx):
         ctx.require(c.get('schedules', 0) >= 1000 and c.get('returned_with_response', 0) >= 500, 'schedules run and responses observed')
         ctx.require(c.get('conf_accounting_scenarios', 0) >= 30, 'configuration accounting scenarios')
         ctx.require(c.get('submissions_refused_for_their_own_reason', 0) >= 100, 'submissions refused for a reason other than a full cache')
-        ctx.require(c.get('replies_for_another_hash', 0) >= 20 and c.get('http_library_faults_fired', 0) >= 50 and c.get('two_http_services_scenarios', 0) >= 50, 'replies for another hash, failing HTTP library calls and two services on one context observed')
+        ctx.require(c.get('replies_for_another_hash', 0) >= 20 and c.get('http_library_faults_fired', 0) >= 50 and c.get('two_http_services_scenarios', 0) >= 50 and c.get('extender_status_isolation_scenarios', 0) >= 20, 'replies for another hash, failing HTTP library calls and two services on one context observed')
 
 
 # ------------------------------------------------------------------ HTTP transport (request granularity)
@@ -873,6 +875,72 @@ class HttpMonitor(Monitor):
         for _ in range(3):
             s.cmd('async_run 0')
         s.cmd('async_free 0')
+
+
+def extender_status_isolation(sess, rng, r, label):
+    """asynchronous EXTENDING service: several requests are outstanding, the extender answers one of them with an error status. That request
+    ends with this service error; the others are not concerned, stay outstanding and complete with their own replies."""
+    c = sess.cmd
+    key = b'anon'
+    c('clock 1700000000')
+    c('async_new 0 0 extend')
+    c('async_endpoint 0 set ksi+tcp://ext.example:3331 anon anon')
+    c('async_opt 0 cache_size 8')
+    c('async_opt 0 max_request_count 1000')
+    c('async_opt 0 rcv_timeout 1000')
+    c('net_ep ext.example 3331 connect=0 send=- recv=-')
+    n0 = len(sess.tcp_order)
+    n = rng.choice([2, 3, 4])
+    times = [1500000000 + 100 * i for i in range(n)]
+    ids = []
+    for i, t in enumerate(times):
+        q = c('async_add 0 0 ext %d - e%d' % (t, i))
+        if q.rc != 0:
+            r.viol('async-tcp:extender-status:add-refused', 'rc=%#x' % q.rc, label)
+            c('async_free 0')
+            return
+        ids.append(int(q['reqid']))
+    got = {}
+    trace = []
+
+    def run(where):
+        c('clock +1')
+        q = c('async_run 0')
+        if q.get('handle') == '1' and q.get('state') in ('3', '5'):
+            got.setdefault(q.get('tag'), []).append((int(q['state']), int(q.get('herr', 0)), int(q.get('hext', 0))))
+            trace.append('%s: %s state=%s err=%s ext=%s' % (where, q.get('tag'), q.get('state'), q.get('herr'), q.get('hext')))
+    run('start')
+    conns = [i for i in sess.tcp_order[n0:] if i['open']]
+    if not conns:
+        r.viol('async-tcp:extender-status:no-connection', 'no connection opened', label)
+        c('async_free 0')
+        return
+    fd = conns[-1]['fd']
+    bad = rng.randrange(n)
+    status = rng.choice([0x101, 0x104, 0x105, 0x200, 0x300])
+    c('net_push %d %s' % (fd, S.ext_response(dict(req_id=ids[bad]), None, key, status=status, errmsg='no').hex()))
+    for k in range(n + 2):
+        run('after the error status for e%d' % bad)
+    early = {t: v for t, v in got.items() if t != 'e%d' % bad}
+    cal = S.Calendar(b'c13-ext')
+    for i, t in enumerate(times):
+        if i != bad:
+            c('net_push %d %s' % (fd, S.ext_response(dict(req_id=ids[i]), cal.chain(t, t + 5000, R.H(1, b'root/%d' % i)), key, last_time=t + 5000).hex()))
+    for k in range(n + 3):
+        run('after the replies for the others')
+    r.count('extender_status_isolation_scenarios')
+    r.observe(('extender-status', n, bad, status, tuple(sorted((k, tuple(v)) for k, v in got.items()))))
+    g = got.get('e%d' % bad, [])
+    if len(g) != 1 or g[0][0] != 5 or g[0][2] != status:
+        r.viol('async-tcp:extender-status:answered-request-not-failed-with-its-status', 'request e%d was answered with status %#x; it came back as %s; trace: %s' % (bad, status, g, ' | '.join(trace)), label)
+    if early:
+        r.viol('async-tcp:extender-status:other-requests-failed-with-foreign-status', 'the extender answered request e%d with status %#x; before anything else arrived the service handed back %s; trace: %s' % (bad, status, early, ' | '.join(trace)), label)
+    else:
+        for i in range(n):
+            if i != bad and got.get('e%d' % i) != [(3, 0, 0)]:
+                r.viol('async-tcp:extender-status:other-request-not-completed', 'request e%d (not the one answered with an error status) ended as %s although its own reply was delivered; trace: %s' % (i, got.get('e%d' % i), ' | '.join(trace)), label)
+                break
+    c('async_free 0')
 
 
 def two_http_services(sess, rng, r, label):
